@@ -39,13 +39,13 @@ MANIFEST = {
     "`undroppable_leak_rejected` (a trace ending with an unused non-droppable object is rejected with `leaked`; the dict "
     "`unused_undroppable_objs` is exactly the set of such objects), `frozen_mutation_rejected`, `no_internal_error_partial`; "
     "`frozen_rejects_all` (decide over the regenerated table of frozenlist overrides against CPython 3.12's 12 mutating list methods). "
-    "Tie: generated comptime bodies through the real tracer, verdict vs model verdict (quick 150 / thorough 3000), plus every `list` attribute "
+    "Tie: generated comptime bodies through the real tracer, verdict vs model verdict (quick 150 / thorough 2000), plus every `list` attribute "
     "exercised on a real frozenlist.",
     "level_note": "Trusted: the hand-written model of _use_wire / __init__ / update_packed_value / trace_function's leak check (mirrors the code incl. the "
     "KeyError path), the body→ops abstraction, message-based error classification. The correspondence is sampling.",
     "technique": "Lean 4 proof by induction over traces + regenerated table (T-src) + same-input correspondence with the real tracer (T-run)",
     "design_ref": "DESIGN.md §5 C22",
-    "ready": False,
+    "ready": True,
 }
 
 GEN = os.path.join(vlib.LEAN, "GuppyVerif", "Gen", "C22FrozenList.lean")
@@ -391,7 +391,7 @@ def tie(ctx):
                 cases.append((r["src"], r["ops"], True))
     if ctx.replay_in and "src" in ctx.replay_in.get("replay", {}):
         cases.append((ctx.replay_in["replay"]["src"], ctx.replay_in["replay"]["ops"], True))
-    for _ in range(ctx.n(150, 3000)):
+    for _ in range(ctx.n(150, 2000)):
         cases.append(gen_case(ctx.rng))
     seen, uniq = set(), []
     for c in cases:
